@@ -286,6 +286,10 @@ def gen_step(rng, fmt, dest_state, overwrite, fault, encoding, names, idx):
     step['overwrite_as'] = rng.weighted(
         [('bool', 6), ('int', 1), ('numpy', 1), ('none', 1)])
     step['pathlib'] = rng.chance(0.25)
+    # the destination as a bytes path / format and overwrite given
+    # positionally (write(filename, format, overwrite))
+    step['bytes_path'] = (not step['pathlib']) and rng.chance(0.1)
+    step['positional'] = rng.chance(0.2)
     step['label'] = label
     return step
 
@@ -434,6 +438,10 @@ class Run:
             # given: extension-based identification documents str names)
             import pathlib
             dest_path = pathlib.Path(dest_path)
+        if step.get('bytes_path') and step['format'] is not None and \
+                isinstance(dest_path, str) and \
+                self.cfg['path_style'] != 'tilde':
+            dest_path = os.fsencode(dest_path)
         regs = [build(r) for r in step['regions']]
         kw = {k: build(v) for k, v in step['kwargs'].items()}
         if step['overwrite'] is not None:
@@ -452,9 +460,13 @@ class Run:
             target = Regions(regs)
         wrec = []
         with FsSeam(self.disk, self.cfg['encoding']) as seam:
+            pos = []
+            if step.get('positional') and 'format' in kw and \
+                    'overwrite' in kw:
+                pos = [kw.pop('format'), kw.pop('overwrite')]
             try:
                 with warnings_mode(self.cfg['warn'], wrec):
-                    target.write(dest_path, **kw)
+                    target.write(dest_path, *pos, **kw)
                 outcome = ['ok']
             except Exception as exc:
                 outcome = ['raise', type(exc).__name__,
